@@ -3,8 +3,8 @@ import PPLV.Checked.Proofs5
 # C11 proofs, part 7: `div_2exp` (rational exact result), `umod_2exp`, `smod_2exp`
 
 `umod_2exp_signed_int` with `exp = bits - 1` can produce `2^(bits-1) - 1`, the bit pattern of `+∞`
-under a policy with infinities, and returns it with `V_EQ` (`C11.umod2exp_fails`);
-`umod2exp_tri_partial` excludes that input class.
+under a policy with infinities; since /repo f54ddd9 a result above `max` is a positive overflow
+(before: stored with `V_EQ`, `C11.umod2exp_holds_before_fix_fails`).
 -/
 namespace PPLV.Checked
 open Result
@@ -176,11 +176,9 @@ theorem div2exp_okq {t : IntTy} {π : Policy} (w : t.WF π) (dir : Dir) {to0 x :
 
 /-! ## umod_2exp, smod_2exp -/
 
-/-- **partial**: excluded is `x < 0 ∧ exp = bits - 1` on a signed type under a policy with
-infinities, where the result `2^(bits-1) - 1` is the bit pattern of `+∞`. -/
-theorem umod2exp_tri_partial {t : IntTy} {π : Policy} (w : t.WF π) (dir : Dir) {to0 x : Int} (e : Nat)
-    (hx : t.finite π x)
-    (side : t.signed = false ∨ π.hasInfinity = false ∨ 0 ≤ x ∨ e + 1 ≠ t.bits) :
+/-- **`umod_2exp`** (as repaired by /repo f54ddd9: a result above `max` is a positive overflow) -/
+theorem umod2exp_tri {t : IntTy} {π : Policy} (w : t.WF π) (dir : Dir) {to0 x : Int} (e : Nat)
+    (hx : t.finite π x) :
     Tri t π dir to0 (umod2exp t π to0 x e dir) (x % pow2 e) := by
   obtain ⟨es, eu⟩ := IntTy.erange_half w
   obtain ⟨hmin, hmax⟩ := IntTy.emin_le_emax w
@@ -206,31 +204,15 @@ theorem umod2exp_tri_partial {t : IntTy} {π : Policy} (w : t.WF π) (dir : Dir)
     · rename_i hge
       have h2 := pow2_ge_two_half w.bits_pos hge
       split
-      · rename_i hneg
-        apply tri_pos
+      · apply tri_pos
         have : x % pow2 e = x + pow2 e := by
           rw [← Int.add_emod_right]
           exact Int.emod_eq_of_lt (by omega) (by omega)
         omega
       · rw [Int.emod_eq_of_lt (by omega) (by omega)]
         exact tri_eq ⟨hx1, hx2⟩
-    · rename_i hlt
-      have hle := pow2_le_half (t := t) (e := e) (by omega)
-      apply tri_eq
-      refine ⟨by omega, ?_⟩
-      rcases side with h | h | h | h
-      · rw [hs] at h; cases h
-      · -- no infinity: max = half - 1
-        have : t.emax π = t.half - 1 := by
-          unfold IntTy.emax IntTy.cmax b2i; simp [hs, h]
-        omega
-      · have : 0 ≤ x / pow2 e := Int.ediv_nonneg h (by omega)
-        have : x % pow2 e ≤ x := by nlinarith
-        omega
-      · -- e + 1 < bits: the remainder is below half/2
-        have h2 : pow2 (e + 1) ≤ t.half := by unfold IntTy.half; exact pow2_le_pow2 (by omega)
-        rw [pow2_succ] at h2
-        have : 2 ≤ t.half := by omega
-        omega
+    · split
+      · exact tri_pos (by omega)
+      · exact tri_eq ⟨by omega, by omega⟩
 
 end PPLV.Checked
